@@ -19,7 +19,15 @@ def campaign_scenarios():
 def run(ctx):
     rnd = rng("C03")
     scs = nsplane.family_alias(rnd, ctx.tier)
-    scs += nsplane.family_mapping(rnd, "quick")[::7]
+    scs += nsplane.family_mapping(rnd, "quick")[::7] if ctx.tier == "quick" else nsplane.family_mapping(rnd, "thorough")[::2]
+    ra = nsplane.family_alias_random(rnd, 60 if ctx.tier == "quick" else 1200)
+    for sc in ra[len(ra) // 3:]:
+        sc["nomodel"] = True              # Layer A explores a third of them exhaustively; all are run and judged
+    scs += ra
+    if ctx.tier == "thorough":
+        for sc in scs:
+            if sc.get("repeat"):
+                sc["repeat"] *= 6         # the late-alias races
     ctx.rule = ("alias family: destination designates the source by ./f, sub/../f, its own directory, absolute spelling, symlink (relative, "
                 "absolute, chain, inside the target directory), hard link (both directions), linked directory, directory onto its parent / "
                 "itself / through a link with -T, linked source roots; plus kill campaign (SIGKILL at the N-th mutating system call of a "
@@ -34,12 +42,14 @@ def run(ctx):
         for sc in camp:
             for d in nsprop.DRIVERS:
                 counts, maxper, _ = nsplane.profile(binary, sc, d)
-                obs += nsplane.kill_runs(binary, sc, d, nsplane.kill_points(counts, step))
-                fpts = []
-                for sysc, errs in ERR_FOR.items():
-                    for w in range(1, min(counts.get(sysc, 0), 6 if ctx.tier == "quick" else 40) + 1):
-                        fpts.append((sysc, errs[w % len(errs)], w))
-                obs += nsplane.fault_runs(binary, sc, d, fpts)
+                for nw in ((2,) if ctx.tier == "quick" else (1, 2, 4)):
+                    obs += nsplane.kill_runs(binary, sc, d, nsplane.kill_points(counts, step), workers=nw, tag="kill%d" % nw)
+                    fpts = []
+                    for sysc, errs in ERR_FOR.items():
+                        for w in range(1, min(counts.get(sysc, 0), 6 if ctx.tier == "quick" else 40) + 1):
+                            for err in (errs if ctx.tier == "thorough" else [errs[w % len(errs)]]):
+                                fpts.append((sysc, err, w))
+                    obs += nsplane.fault_runs(binary, sc, d, fpts, workers=nw, tag="fault%d" % nw)
         ctx.notes["kill_and_fault_runs"] = len(obs)
         return obs
     def nt(sc):
